@@ -189,9 +189,10 @@ def case_stacks(cs):
             return common.result(common.OOD, sig=sig, why="sizing guard", sample=sample)
         return common.result(common.INC, sig=sig, why="bt raised %s: %s" % (type(e).__name__, str(e)[:100]), sample=sample)
     kinds = dict(zip(spec["names"], spec["kinds"]))
-    costs_total = 0.0
+    prevN = 0.0
     for now, base, kidsnap, N in log:
         if base is None:
+            prevN = N
             continue
         for nm, (notl, wgt, px, mult) in kidsnap.items():
             k = kinds[nm]
@@ -202,13 +203,17 @@ def case_stacks(cs):
                     tol = 1e-9 * (1 + abs(T)) + (1.0 if spec["integer"] else 0.0)
                 else:
                     # market-value child: within one unit plus the costs of the call
-                    tol = 1e-6 * (1 + abs(T)) + (px * mult if spec["integer"] else 0.0) + 0.05 * abs(T) * (1 if (spec["comm"] != "none" or spec["bidoffer"] is not None) else 0)
+                    # market-value child: within one unit plus the costs of the call (a sale must raise its amount net of costs)
+                    tol = 1e-6 * (1 + abs(T)) + (px * mult if spec["integer"] else 0.0) + 0.05 * max(abs(T), abs(prevN)) * (1 if (spec["comm"] != "none" or spec["bidoffer"] is not None) else 0)
                 if not abs(notl - T) <= tol:
                     return common.result(common.VIOL, sig=sig, nt=True, cnt=cnt, mech="c17_rebalance_target", sample=sample,
                                          witness=dict(w, date=str(now), child=nm, type=k, notional=notl, target=T, base=base, tolerance=tol))
             elif k in ("hedge", "cphedge"):
                 if notl != 0.0:
                     return common.result(common.VIOL, sig=sig, nt=True, cnt=cnt, mech="c17_notional", witness=dict(w, node=nm, type=k, notional=notl, expected=0.0), sample=sample)
+        if base == 0:
+            common.bump(cnt, "zero_notional_rebalances")
+        prevN = N
     # renormalised result
     t = run.bt
     nv = float(np.mean(spec["nv"]))
